@@ -763,6 +763,8 @@ func runSafeImpliesUnsafe(rr *RuleRun) {
 				default:
 					if flag == nil && returnsOnlyString(info, fd) {
 						rr.Info(key, x.Pos(), "error-message builder: the conversion is only tested for existence, never returned")
+					} else if as, ok := c.Parent(x).(*ast.AssignStmt); ok && len(as.Lhs) == 2 && len(as.Rhs) == 1 && isBlank(as.Lhs[1]) && isCtyType(info.TypeOf(as.Lhs[0])) {
+						rr.OKTrivial(key, x.Pos(), "the call computes a type only: its conversions are discarded, so the flag cannot leak an unsafe conversion")
 					} else if why, ok := unsafeLiteralExceptions[key]; ok {
 						rr.OKTrivial(key, x.Pos(), "tabled exception: "+why)
 					} else if id, ok := a.(*ast.Ident); ok && id.Name == "false" {
@@ -880,4 +882,9 @@ func runSafePrimitives(rr *RuleRun) {
 	if n == 0 {
 		rr.Broken("no function literals found in primitiveConversionsSafe")
 	}
+}
+
+func isBlank(e ast.Expr) bool {
+	id, ok := e.(*ast.Ident)
+	return ok && id.Name == "_"
 }
